@@ -64,6 +64,13 @@ def _unbound(pid, v):
     return False
 
 
+@scope("F-FORMAT-MIXIN-SUBCLASS-FIELDS")
+def _fmt_subclass(pid, v):
+    f = (v["case"].get("facts") or {})
+    return (pid == "C04" and v["clause"] == "document-neq-basic-form" and v["case"].get("format") in ("orjson", "msgpack", "toml")
+            and bool(f.get("subclass_instance_in_base_typed_field")) and bool(f.get("serialized_by_the_annotated_class")))
+
+
 @scope("F-TWIN-QUALIFIED-NAME")
 def _twin(pid, v):
     f = (v["case"].get("facts") or {})
